@@ -3,6 +3,7 @@ package world
 import (
 	"fmt"
 	"sort"
+	"strings"
 
 	"go.sia.tech/core/consensus"
 	"go.sia.tech/core/types"
@@ -14,7 +15,10 @@ import (
 
 func (w *World) crashOffer(sc *scratch, name string, v1 []types.Transaction, v2 []types.V2Transaction) {
 	// only decodable inputs are in the quantifier: go through the wire first
-	b := w.assembleOpt(sc.s, sc.nextTimestamp(), w.miners[0].addr, v1, v2, len(v2) > 0)
+	var b types.Block
+	if p := guard(func() { b = w.assembleOpt(sc.s, sc.nextTimestamp(), w.miners[0].addr, v1, v2, len(v2) > 0) }); p != "" {
+		return // the harness itself cannot total the fees: no miner could seal it
+	}
 	var enc []byte
 	if p := guard(func() { enc = encodeBlock(b) }); p != "" {
 		return // not encodable: cannot arrive from a peer
@@ -32,7 +36,9 @@ func (w *World) crashOffer(sc *scratch, name string, v1 []types.Transaction, v2 
 		return
 	}
 	// re-seal after the round trip (commitment covers the decoded form)
-	sc.offer(db.Transactions, db.V2Transactions(), offerOpt{forceV2: db.V2 != nil})
+	if p := guard(func() { sc.offer(db.Transactions, db.V2Transactions(), offerOpt{forceV2: db.V2 != nil}) }); p != "" && !strings.Contains(p, "go.sia.tech/core") {
+		return
+	}
 }
 
 func init() {
